@@ -48,6 +48,16 @@ theorem last_true (l : List Bool) (h : l.any id = true) :
 
 /-! rows / columns containing a valid sample -/
 
+/-- with at least one `true`, the leading and the trailing run of `false` together are shorter than the vector -/
+theorem margins_lt (l : List Bool) (h : l.any id = true) : argmaxB l + argmaxB l.reverse < l.length := by
+  obtain ⟨hlt, hv⟩ := argmaxB_spec l h
+  have := lt_sub_argmaxB_reverse l (argmaxB l) hlt hv
+  omega
+
+/-- without any `true`, both `argmax` calls return 0 -/
+theorem margins_zero (l : List Bool) (h : l.any id = false) : argmaxB l = 0 ∧ argmaxB l.reverse = 0 :=
+  ⟨argmaxB_none l h, argmaxB_none _ (by rw [any_reverse]; exact h)⟩
+
 theorem rowAny_length (v : Nat → Nat → Bool) (rows cols : Nat) : (rowAny v rows cols).length = rows := by
   simp [rowAny]
 theorem colAny_length (v : Nat → Nat → Bool) (rows cols : Nat) : (colAny v rows cols).length = cols := by
